@@ -7,6 +7,7 @@ import (
 	"fmt"
 	"go/types"
 	"os"
+	"strings"
 )
 
 type fifoState struct {
@@ -147,6 +148,13 @@ func init() {
 		}
 		f := p.fifoByPath(path)
 		if f == nil {
+			if strings.HasPrefix(path, "/verif-out/") {
+				// another descriptor of the events output (a regular file that exists)
+				flag, _ := args[1].(int)
+				var cell value = &opaque{kind: "file", data: map[string]value{"state": &fileState{path: path},
+					"sink": &sinkHandle{sink: p.sinkFor(path), append: flag&os.O_APPEND != 0}}}
+				return tuple{&cell, nilError()}
+			}
 			return tuple{(*value)(nil), fr.i.mkError("open " + path + ": no such file or directory")}
 		}
 		// opening for reading blocks until a writer has the fifo open
